@@ -13,7 +13,8 @@ RuntimeError and never consume; close() closes uploaded files; repeated attribut
    variants of the model must fail.
 2. spec -> code: every exported behaviour of the model is re-executed on a real Request over an
    EnvironBuilder environ with a counting wsgi.input.
-3. code -> spec: exhaustive call pairs / triples and seeded random long histories on real Requests.
+3. code -> spec: call pairs / triples (sampled in quick, exhaustive in thorough) and seeded random long
+   histories on real Requests.
 Every recorded call is judged by TLC (ReqDataTrace.tla) with the contract operators; differences to
 the model's prediction and calls the documentation leaves open are reported as drift only.
 """
@@ -62,7 +63,7 @@ ENUM_SCENARIOS = [
 
 
 def enum_cases(rng, quick: bool):
-    """every pair of calls (quick) / every triple for the core accessors (thorough) on fixed scenarios,
+    """every call and a sample of the pairs (quick) / every pair and every triple of the core accessors (thorough) on fixed scenarios,
     each followed by a probe suffix that makes the request's caches observable"""
     calls = R.all_calls(sizes=(2, -1))
     probes = [R.call("stream_read", n=-1), R.call("get_data", cache=True, pfd=False, text=False), R.call("form"),
@@ -73,8 +74,8 @@ def enum_cases(rng, quick: bool):
         if not quick:
             core = [c for c in calls if c["op"] in ("stream_read", "get_data", "data", "form", "files", "json", "get_json")]
             seqs += [list(p) for p in itertools.product(core, repeat=3)]
-        elif shallow:
-            seqs = [[c] for c in calls] + rng.sample(seqs, 120)
+        else:       # quick: every single call + a seeded sample of the pairs (all pairs are in the model replay / thorough tier)
+            seqs = [[c] for c in calls] + rng.sample(seqs, 120 if shallow else 300)
         for seq in seqs:
             out.append({"body": list(body), "ctype": ct, "method": method, "shallow": shallow,
                         "calls": [dict(c) for c in seq] + [dict(probes[j]) for j in sorted(rng.sample(range(len(probes)), 3))]})
@@ -193,8 +194,8 @@ def model_runs(ctx: Ctx):
     for k, r in out.items():
         if k.startswith("bad:"):
             ctx.notes.setdefault("broken_models_rejected", {})[k[4:]] = r.invariant_violated
-            if not r.invariant_violated:
-                raise tlc.MachineryError(f"deliberately broken model variant {k[4:]} is not rejected (vacuous contract?)")
+            if r.invariant_violated not in ("Contract", "ReplayOnlyUndocumented", "Partition"):
+                raise tlc.MachineryError(f"deliberately broken model variant {k[4:]} is not rejected by the contract (vacuous contract?)")
             continue
         ctx.model_runs.append({"spec": f"{AREA}/MCReqData", "cfg": jobs[k][0], "distinct": r.distinct, "generated": r.generated,
                                "depth": r.depth, "wall_s": round(r.wall_s, 1)})
@@ -211,7 +212,7 @@ def run(ctx: Ctx):
     ctx.rule = ("case = one history of accessor calls (.stream.read(n), get_data(cache, as_text, parse_form_data), .data, .form, "
                 ".files, .values, .json, get_json(force, silent, cache), .input_stream, want_form_data_parsed, close()/with) on one "
                 "real Request (body, content type, method, shallow) over a counting wsgi.input; histories: all behaviours exported "
-                "from the TLC model, exhaustive call pairs/triples on fixed scenarios, seeded random histories of 3-12 calls; "
+                "from the TLC model, call pairs/triples on fixed scenarios (sampled in quick, exhaustive in thorough), seeded random histories of 3-30 calls; "
                 "non-trivial = distinct (scenario, call sequence) that uses at least two different body-reading accessors")
     ctx.assumptions += [
         "CONTENT_LENGTH is present and equals the body length; no max_content_length / form limits (C09 / C10 cover those)",
@@ -237,7 +238,7 @@ def run(ctx: Ctx):
     ctx.notes["model_behaviours_exported"] = len(behaviours)
     if not behaviours:
         raise tlc.MachineryError("no behaviours exported from the model")
-    cap = 7000 if q else 120000
+    cap = 7000 if q else 200000
     if len(behaviours) > cap:
         behaviours = rng.sample(behaviours, cap)
     ctx.notes["model_behaviours_replayed"] = len(behaviours)
